@@ -39,8 +39,8 @@ def reachable(graph: dict[int, list[int]], depth: int, skip: set[int]) -> tuple[
     return set(found), found
 
 
-def gen_graph(rng: Any) -> dict[int, list[int]]:
-    n = rng.choice([2, 3, 4, 5, 6, 8, 12])
+def gen_graph(rng: Any, big: bool = False) -> dict[int, list[int]]:
+    n = rng.choice([2, 3, 4, 5, 6, 8, 12] if not big else [4, 8, 12, 16, 24])
     ids = [1] + sorted(rng.sample(range(2, 0x7F), n - 1))
     style = rng.choice(["sparse", "dense", "chain", "cycle", "islands", "random"])
     g: dict[int, set[int]] = {s: {1} for s in ids}
@@ -110,13 +110,13 @@ class C09(Check):
     def gen(self, seed: int, index: int, tier: str) -> dict[str, Any]:
         rng = rng_for(seed, "C09", index)
         plan: dict[str, Any] = {"prop": "C09", "index": index}
-        g = gen_graph(rng)
+        g = gen_graph(rng, big=(tier != "quick"))
         plan["thorough"] = rng.random() < 0.2
         if plan["thorough"]:
             keep = [1] + [s for s in sorted(g) if s != 1][:4]
             g = {s: [t for t in ts if t in keep] for s, ts in g.items() if s in keep}
         plan["graph"] = {str(k): v for k, v in g.items()}
-        plan["depth"] = rng.choice([1, 2, 3, 4, 5]) if not plan["thorough"] else rng.choice([1, 2, 3])
+        plan["depth"] = rng.choice([1, 2, 3, 4, 5] if tier == "quick" else [2, 3, 5, 6, 8]) if not plan["thorough"] else rng.choice([1, 2, 3])
         ids = sorted(g)
         plan["skip"] = sorted(rng.sample(ids[1:], rng.choice([0, 0, 1, 2]) if len(ids) > 2 else 0)) if len(ids) > 1 else []
         if rng.random() < 0.15:
